@@ -3,6 +3,7 @@
 package connectconformance
 
 import (
+	"strings"
 	"bytes"
 	"context"
 	"encoding/binary"
@@ -42,10 +43,24 @@ type VerifC11Spec struct {
 	Resp    string         `json:"resp"`    // ok | okcert | garbage | oversize | zero | cut | never
 	Cut     int            `json:"cut"`     // resp=cut: only the first Cut bytes of the well-formed response (without certificate), then EOF
 	RespLen int            `json:"respLen"` // length of that well-formed response as the generator believes it (checked)
+	RawReq  bool           `json:"rawReq,omitempty"`  // the test cases carry a raw HTTP request (server-mode suites)
 	ExitNil bool           `json:"exitNil,omitempty"` // the server process ends with a nil result (exit status 0) instead of an error
 	Dies    int            `json:"dies"`    // -1: never; k >= 0: the server process dies once k requests were handed to the client
 	Stderr  string         `json:"stderr"`  // what a reference server prints on stderr
 	Chunk   int            `json:"chunk"`   // stderr is delivered in reads of at most Chunk bytes (0: all at once)
+}
+
+// VerifC11Req describes one request as the client received it.
+type VerifC11Req struct {
+	Name        string   `json:"name"`
+	HdrName     []string `json:"hdrName"`    // values of x-test-case-name in request_headers
+	Raw         bool     `json:"raw"`        // the request carries a raw HTTP request
+	RawHdrName  []string `json:"rawHdrName"` // values of x-test-case-name in raw_request.headers
+	Host        string   `json:"host"`
+	Port        int      `json:"port"`
+	HasCert     bool     `json:"hasCert"`
+	ExpectHdrs  int      `json:"expectHdrs"`    // number of x-expect-* headers in request_headers
+	RawExpected int      `json:"rawExpectHdrs"` // number of x-expect-* headers in raw_request.headers
 }
 
 type VerifC11Obs struct {
@@ -57,6 +72,11 @@ type VerifC11Obs struct {
 	Sideband  [][2]string `json:"sideband"`  // sorted (name, message)
 	Hang      bool        `json:"hang"`      // runTestCasesForServer did not return within 15 s
 	StderrEOF bool        `json:"stderrEOF"` // the stderr stream was read to its end (reference server only)
+	// Reqs: what was handed to the client for each request, as far as C05 names it
+	Reqs []VerifC11Req `json:"reqs"`
+	// AfterMerge: the outcome classes once the recorded reference-server feedback has been merged
+	// into the outcomes (what report() does first): a set-up error must stay a set-up error
+	AfterMerge [][2]string `json:"afterMerge"`
 }
 
 func VerifC11RespLen() int { return len(verifC11RespBytes(false)) }
@@ -253,6 +273,7 @@ type verifC11Client struct {
 	proc     func() *verifC11Proc
 	async    sync.WaitGroup
 	overflow int
+	reqs     []VerifC11Req
 }
 
 func (c *verifC11Client) sendRequest(req *conformancev1.ClientCompatRequest, whenDone func(string, *conformancev1.ClientCompatResponse, error)) error {
@@ -268,6 +289,29 @@ func (c *verifC11Client) sendRequest(req *conformancev1.ClientCompatRequest, whe
 	if i >= len(c.spec.Cases) {
 		c.overflow++
 		return errors.New("verif: more requests than cases")
+	}
+	{
+		rec := VerifC11Req{Name: req.TestName, Host: req.Host, Port: int(req.Port), HasCert: len(req.ServerTlsCert) > 0, Raw: req.RawRequest != nil,
+			HdrName: []string{}, RawHdrName: []string{}}
+		for _, h := range req.RequestHeaders {
+			if strings.EqualFold(h.Name, "x-test-case-name") {
+				rec.HdrName = append(rec.HdrName, h.Value...)
+			}
+			if strings.HasPrefix(strings.ToLower(h.Name), "x-expect-") {
+				rec.ExpectHdrs++
+			}
+		}
+		if req.RawRequest != nil {
+			for _, h := range req.RawRequest.Headers {
+				if strings.EqualFold(h.Name, "x-test-case-name") {
+					rec.RawHdrName = append(rec.RawHdrName, h.Value...)
+				}
+				if strings.HasPrefix(strings.ToLower(h.Name), "x-expect-") {
+					rec.RawExpected++
+				}
+			}
+		}
+		c.reqs = append(c.reqs, rec)
 	}
 	k := c.spec.Cases[i]
 	if k.K == "refuse" {
@@ -348,8 +392,12 @@ func VerifC11Run(spec VerifC11Spec) VerifC11Obs {
 func verifC11Run(spec VerifC11Spec) (VerifC11Obs, *testResults) {
 	cases := make([]*conformancev1.TestCase, len(spec.Names))
 	for i, n := range spec.Names {
+		req := &conformancev1.ClientCompatRequest{TestName: n}
+		if spec.RawReq {
+			req.RawRequest = &conformancev1.RawHTTPRequest{Verb: "POST", Uri: "/verif", Headers: []*conformancev1.Header{{Name: "content-type", Value: []string{"application/proto"}}}}
+		}
 		cases[i] = &conformancev1.TestCase{
-			Request:          &conformancev1.ClientCompatRequest{TestName: n},
+			Request:          req,
 			ExpectedResponse: &conformancev1.ClientResponseResult{Payloads: []*conformancev1.ConformancePayload{{Data: []byte("data")}}},
 		}
 	}
@@ -466,6 +514,27 @@ func verifC11Run(spec VerifC11Spec) (VerifC11Obs, *testResults) {
 	}
 	if obs.Sideband == nil {
 		obs.Sideband = [][2]string{}
+	}
+	obs.Reqs = append([]VerifC11Req{}, client.reqs...)
+	// merge the feedback on a copy of the bookkeeping (callers may still call report() on results)
+	merged := newResults(len(cases), &testTrie{}, &testTrie{}, nil)
+	results.mu.Lock()
+	for name, o := range results.outcomes {
+		merged.outcomes[name] = o
+	}
+	for name, msg := range results.serverSideband {
+		merged.serverSideband[name] = msg
+	}
+	results.mu.Unlock()
+	merged.mu.Lock()
+	merged.processSidebandInfoLocked()
+	for name, o := range merged.outcomes {
+		obs.AfterMerge = append(obs.AfterMerge, [2]string{name, verifC11Class(o)})
+	}
+	merged.mu.Unlock()
+	sort.Slice(obs.AfterMerge, func(i, j int) bool { return obs.AfterMerge[i][0] < obs.AfterMerge[j][0] })
+	if obs.AfterMerge == nil {
+		obs.AfterMerge = [][2]string{}
 	}
 	return obs, results
 }
